@@ -480,6 +480,13 @@ package commitlog
 //@ func (*commitLog).SetHighWatermark serves C03, C02
 //@   requires l != nil
 //@   ensures [monotone] l.hw == (hw > old(l.hw) ? hw : old(l.hw))
+// waitForHW: the end of a read-only log is announced (true) only to a reader that has seen the current watermark; a
+// reader whose view of the watermark is stale is woken to re-synchronise first - otherwise it would miss the messages
+// between the watermark it saw and the current one
+//@ func (*commitLog).waitForHW serves C03
+//@   requires l != nil
+//@   assumes l.vActiveSegment != nil
+//@   call send.wait requires [end-announced-only-to-a-reader-with-the-current-watermark] !arg1 || l.hw == hw
 //@ func (*commitLog).HighWatermark serves C03, C01
 //@   requires l != nil
 //@   modifies nothing
